@@ -498,7 +498,7 @@ func unrankSteps(r uint64, k int) float64 {
 func gen(g *hx.Gen) {
 	emit := func(format string, a ...interface{}) { g.Emit(fmt.Sprintf(format, a...)) }
 	modelSteps := 0.0 // budget of walk steps handed to the (slow) model driver
-	modelBudget := float64(g.Pick(350000, 20000000))
+	modelBudget := float64(g.Pick(350000, 12000000))
 	perCase := float64(g.Pick(60000, 2500000))
 	skipped := 0
 	unrankCase := func(r uint64, k int) {
@@ -688,7 +688,7 @@ func gen(g *hx.Gen) {
 	}
 
 	// every r < 5000 for k <= 6 (short walks on small numbers: a budget of their own)
-	modelSteps, modelBudget = 0, float64(g.Pick(1500000, 40000000))
+	modelSteps, modelBudget = 0, float64(g.Pick(1500000, 25000000))
 	for k := 2; k <= 6; k++ {
 		for r := 0; r < 5000; r++ {
 			unrankCase(uint64(r), k)
